@@ -506,6 +506,8 @@ pub trait KeyT: PartialEq + Eq + Clone + Borrow<Self::Q> + fmt::Debug + Sized + 
     const MAXK: u8;
     const LEDGER: bool;
     const DISTINCT_Q: bool;
+    /// no payload method allocates (so a subject call with this type must not allocate)
+    const PLAIN: bool = false;
     fn mk(k: u8, tag: u8) -> Self;
     fn kd(&self) -> KD;
     fn with_q<R>(k: u8, f: impl FnOnce(&Self::Q) -> R) -> R;
@@ -519,6 +521,8 @@ pub trait ValT: PartialEq + Clone + Default + fmt::Debug + Sized + 'static {
     const DEFAULT_CODE: u8;
     /// objects carry ledger identities (even if their destruction is not observable)
     const HAS_ID: bool = Self::LEDGER;
+    /// no payload method allocates
+    const PLAIN: bool = false;
     fn mk(v: u8) -> Self;
     fn vd(&self) -> VD;
     /// change the value in place (object identity is kept)
@@ -562,6 +566,7 @@ impl ValT for Vx {
 }
 
 impl KeyT for u8 {
+    const PLAIN: bool = true;
     type Q = u8;
     const NAME: &'static str = "u8";
     const TAGS: u8 = 1;
@@ -583,6 +588,7 @@ impl KeyT for u8 {
     }
 }
 impl ValT for u8 {
+    const PLAIN: bool = true;
     const NAME: &'static str = "u8";
     const MAXV: u8 = 8;
     const LEDGER: bool = false;
@@ -658,6 +664,7 @@ impl ValT for String {
 }
 
 impl KeyT for () {
+    const PLAIN: bool = true;
     type Q = ();
     const NAME: &'static str = "unit";
     const TAGS: u8 = 1;
@@ -677,6 +684,7 @@ impl KeyT for () {
     }
 }
 impl ValT for () {
+    const PLAIN: bool = true;
     const NAME: &'static str = "unit";
     const MAXV: u8 = 1;
     const LEDGER: bool = false;
@@ -698,6 +706,7 @@ impl Default for Big {
     }
 }
 impl ValT for Big {
+    const PLAIN: bool = true;
     const NAME: &'static str = "Big128";
     const MAXV: u8 = 8;
     const LEDGER: bool = false;
